@@ -10,6 +10,7 @@
                          [HashType]table|key|field; write them and a merge on the table counter
    Never read by any of them: table counters (only merged), expire-time index keys (read by the
    node-local sweeper only). Hash-field secondary indexes (tables with an hset index schema) are not modelled.
+   The sets below are those of batch candidates (Model.batch_cand): DEL in its single-key form only.
    An engine key is identified by its class and owner; that different (class, owner) pairs are different
    byte strings is C12's injectivity theorem. *)
 From Coq Require Import List NArith Bool.
